@@ -67,7 +67,8 @@ SAFE_ATTRS = [[], [], [["k", "v"]], [["{urn:b}k", "a b"], ["j", ""]], [["id", "u
 # attributes that trigger the listed findings (kept out of the "clean" streams)
 RISKY_ATTRS = [
     [["k", "p:bar"]],                       # declared prefix: rewritten to Clark form
-    [[XSI_NIL, "true"]],                    # popped by flush_start when the element has text ""
+    [[XSI_NIL, "true"]],                    # kept: convert_any_element flushes the start tag first
+    [["k", "v"], [XSI_NIL, "false"]],
     [["k", "r:x"], ["j", "v"]],
 ]
 
